@@ -106,3 +106,5 @@ def run(cx, out):
         # premise of the sequence shapes: only the 12 primitives take the bulk path (C01 R01.3)
         from . import c01
         c01.check_type_info(out, facts)
+    from . import positive
+    positive.check(cx, out, 'C16')
